@@ -23,7 +23,11 @@ fn orthodox_files(p: &Pos) -> bool {
 }
 
 // ------------------------------------------------------------------------------------------------
-pub struct C06;
+pub struct C06 {
+    /// assert re-entry acceptance (only where the roots are provably reachable by legal play from a
+    /// (double) Chess960 start position)
+    pub acceptance: bool,
+}
 fn soundness(b: &Board, how: &str, case: Value, s: &Sink) {
     let p = alpha(b);
     if let Err(clause) = p.sound() {
@@ -62,6 +66,10 @@ impl Monitor for C06 {
         t.validated += 1;
         // every board handed out by play / null_move is sound
         soundness(v.board, "play/null_move history", v.case(), s);
+        self.setters(v, s);
+        if !self.acceptance {
+            return;
+        }
         // acceptance: positions reached by legal play from a (double) Chess960 start are accepted
         // when re-entered as text or through the builder
         let txt = shredder(v.board);
@@ -87,6 +95,10 @@ impl Monitor for C06 {
             Ok(Err(e)) => s.violation("C06.accept", &format!("builder rejects reachable position:{:?}", e), v.case(), format!("BoardBuilder::from_board(..).build() rejects {} ({})", txt, e)),
             Err(e) => s.violation("C06.accept", "builder panics on reachable position", v.case(), e),
         }
+    }
+}
+impl C06 {
+    fn setters(&self, v: &View, s: &Sink) {
         // clock setters: panic exactly outside the range, and keep the board sound
         for n in [0u8, 1, 50, 99, 100, 101, 200, 255] {
             let mut c = v.board.clone();
@@ -606,7 +618,7 @@ struct Both<'a>(&'a dyn Monitor, &'a dyn CandMonitor);
 
 fn monitors(prop: &str) -> (Box<dyn Monitor>, Box<dyn CandMonitor>) {
     match prop {
-        "C06" => (Box::new(C06), Box::new(C06)),
+        "C06" => (Box::new(C06 { acceptance: true }), Box::new(C06 { acceptance: true })),
         "C07" => (Box::new(C07), Box::new(NoCand)),
         "C09" => (Box::new(C09), Box::new(C09)),
         "C10" => (Box::new(C10::new()), Box::new(NoCand)),
@@ -636,12 +648,24 @@ pub fn run(run: &mut Run) -> Result<(), String> {
                 plan.start = Some(b(3, 0));
                 plan.r960 = Some(b(1, 0));
                 plan.dfrc = Some((0..960, 16, b(1, 0)));
+                plan.lines = Some(b(2, 0));
             } else {
                 plan.start = Some(b(4, 0));
                 plan.r960 = Some(b(2, 0));
                 plan.dfrc = Some((0..960, 1, b(1, 0)));
+                plan.lines = Some(b(3, 0));
             }
             run_plan(run, &plan, mon.as_ref(), &NoCand);
+            if prop == "C06" {
+                // boards handed out by play from roots that are accepted but not provably reachable
+                // from a start position: soundness (and the clock setters) only
+                let mut plan = Plan::empty();
+                plan.mid = Some(b(if q { 2 } else { 3 }, 1));
+                plan.clock = Some(b(2, 1));
+                run.tag = " [soundness only]".into();
+                run_plan(run, &plan, &C06 { acceptance: false }, &NoCand);
+                run.tag = String::new();
+            }
             // constructed part: candidate monitor only
             let mut plan = Plan::empty();
             let corpus = corpus_positions(q, &run.sink);
@@ -674,6 +698,13 @@ pub fn run(run: &mut Run) -> Result<(), String> {
                 plan.r960 = Some(b(1, 1));
                 plan.clock = Some(b(2, 1));
                 plan.dfrc = Some((0..960, 16, b(0, 0)));
+                plan.lines = Some(b(2, 1));
+                if prop == "C10" || prop == "C07" {
+                    plan.raws.push((Box::new(TwoLines { enemy_kings: vec![35] }), b(if prop == "C10" { 1 } else { 0 }, 0)));
+                }
+                if prop == "C12" {
+                    plan.raws.push((Box::new(DoubleCheck { kings: vec![4, 0], own_kinds: vec![Kind::P, Kind::N] }), b(0, 0)));
+                }
                 plan.raws.push((Box::new(ThreeMen { bk: if prop == "C07" { None } else { Some(sub8.clone()) } }), b(if prop == "C10" { 1 } else { 0 }, 1)));
                 plan.raws.push((Box::new(Castle { extra: 1 }), b(if prop == "C10" { 1 } else { 0 }, 1)));
                 plan.raws.push((Box::new(EpUniverse::reduced()), b(if prop == "C10" { 1 } else { 0 }, 1)));
@@ -686,6 +717,9 @@ pub fn run(run: &mut Run) -> Result<(), String> {
                 plan.r960 = Some(b(2, 1));
                 plan.clock = Some(b(3, 2));
                 plan.dfrc = Some((0..960, 1, b(0, 0)));
+                plan.lines = Some(b(3, 2));
+                plan.raws.push((Box::new(TwoLines { enemy_kings: vec![35, 60, 63] }), b(1, 0)));
+                plan.raws.push((Box::new(DoubleCheck { kings: vec![4, 27, 0, 60], own_kinds: NONKING.to_vec() }), b(0, 0)));
                 plan.raws.push((Box::new(ThreeMen { bk: None }), b(1, 1)));
                 plan.raws.push((Box::new(FourMen { kings: if prop == "C10" { Some(six_king_placements()) } else { None }, with_flags: false }), b(0, 0)));
                 plan.raws.push((Box::new(Castle { extra: 2 }), b(if prop == "C10" { 1 } else { 0 }, 1)));
@@ -707,12 +741,14 @@ pub fn run(run: &mut Run) -> Result<(), String> {
             if q {
                 plan.start = Some(b(2, 1));
                 plan.mid = Some(b(1, 1));
+                plan.lines = Some(b(1, 1));
                 plan.raws.push((Box::new(ThreeMen { bk: Some(vec![63, 36]) }), b(0, 0)));
                 plan.raws.push((Box::new(EpUniverse::reduced()), b(0, 0)));
             } else {
                 plan.start = Some(b(3, 1));
                 plan.mid = Some(b(2, 1));
                 plan.r960 = Some(b(1, 0));
+                plan.lines = Some(b(2, 1));
                 plan.raws.push((Box::new(ThreeMen { bk: Some(sub8.clone()) }), b(0, 0)));
                 plan.raws.push((Box::new(EpUniverse::full()), b(0, 0)));
                 plan.raws.push((Box::new(Castle { extra: 1 }), b(0, 0)));
